@@ -51,7 +51,7 @@ impl TraitHandler for DebugUnionHandler {
 
                     let size = ::core::mem::size_of::<Self>();
 
-                    let data = unsafe { ::core::slice::from_raw_parts(self as *const Self as *const u8, size) };
+                    let data = unsafe { ::core::slice::from_raw_parts(self as *const Self as *const ::core::primitive::u8, size) };
 
                     builder.field(&data);
 
@@ -60,7 +60,7 @@ impl TraitHandler for DebugUnionHandler {
             } else {
                 builder_token_stream.extend(quote!(
                     let size = ::core::mem::size_of::<Self>();
-                    let data = unsafe { ::core::slice::from_raw_parts(self as *const Self as *const u8, size) };
+                    let data = unsafe { ::core::slice::from_raw_parts(self as *const Self as *const ::core::primitive::u8, size) };
 
                     ::core::fmt::Debug::fmt(data, f)
                 ));
